@@ -336,6 +336,9 @@ pub fn vec_op<'b, P: Pair>(ctx: &mut Ctx, bump: &'b Bump, v: &mut VSlot<'b, P::A
                         let _u = ledger::enter_user();
                         got.reserve(8);
                     }
+                    if c & 0x30 == 0x30 {
+                        got.push(d.nth(1).map(|x| x.val()).unwrap_or(999));
+                    }
                     for _ in 0..front {
                         if let Some(x) = d.next() {
                             got.push(x.val());
@@ -354,6 +357,9 @@ pub fn vec_op<'b, P: Pair>(ctx: &mut Ctx, bump: &'b Bump, v: &mut VSlot<'b, P::A
                 || {
                     let mut d = t.drain(range);
                     let mut got = Vec::with_capacity(8);
+                    if c & 0x30 == 0x30 {
+                        got.push(d.nth(1).map(|x| x.val()).unwrap_or(999));
+                    }
                     for _ in 0..front {
                         if let Some(x) = d.next() {
                             got.push(x.val());
@@ -487,10 +493,93 @@ pub fn vec_op<'b, P: Pair>(ctx: &mut Ctx, bump: &'b Bump, v: &mut VSlot<'b, P::A
         29 => {
             if a & 1 == 0 {
                 let m = 1 + (b % 4) as u32;
-                ctx.both("dedup_by_key", || s.dedup_by_key(|x| x.val() / m), || t.dedup_by_key(|x| x.val() / m));
+                if c & 1 == 0 {
+                    ctx.both("dedup_by_key", || s.dedup_by_key(|x| x.val() / m), || t.dedup_by_key(|x| x.val() / m));
+                } else {
+                    // a key function that also writes through the &mut it receives
+                    ctx.both(
+                        "dedup_by_key (mutating key)",
+                        || {
+                            s.dedup_by_key(|x| {
+                                let k = x.val() / m;
+                                x.set_val((x.val() + 1) % 12);
+                                k
+                            })
+                        },
+                        || {
+                            t.dedup_by_key(|x| {
+                                let k = x.val() / m;
+                                x.set_val((x.val() + 1) % 12);
+                                k
+                            })
+                        },
+                    );
+                }
             } else {
                 let m = 1 + (b % 3) as u32;
-                ctx.both("dedup_by", || s.dedup_by(|x, y| x.val() % m == y.val() % m), || t.dedup_by(|x, y| x.val() % m == y.val() % m));
+                match c % 4 {
+                    0 => {
+                        ctx.both("dedup_by (symmetric)", || s.dedup_by(|x, y| x.val() % m == y.val() % m), || t.dedup_by(|x, y| x.val() % m == y.val() % m));
+                    }
+                    1 => {
+                        // asymmetric relation: the first argument is the later element, the second the one that stays
+                        ctx.both("dedup_by (a == b + 1)", || s.dedup_by(|x, y| x.val() == y.val() + 1), || t.dedup_by(|x, y| x.val() == y.val() + 1));
+                    }
+                    2 => {
+                        // merge-runs idiom: mutate the element that stays through the &mut it is handed
+                        ctx.both(
+                            "dedup_by (merging into the kept element)",
+                            || {
+                                s.dedup_by(|x, y| {
+                                    if x.val() % m == y.val() % m {
+                                        let nv = (y.val() + x.val() + 1) % 12;
+                                        y.set_val(nv);
+                                        true
+                                    } else {
+                                        false
+                                    }
+                                })
+                            },
+                            || {
+                                t.dedup_by(|x, y| {
+                                    if x.val() % m == y.val() % m {
+                                        let nv = (y.val() + x.val() + 1) % 12;
+                                        y.set_val(nv);
+                                        true
+                                    } else {
+                                        false
+                                    }
+                                })
+                            },
+                        );
+                    }
+                    _ => {
+                        // record which element arrives in which position
+                        ctx.both(
+                            "dedup_by (argument order)",
+                            || {
+                                let mut seen = {
+                                    let _u = ledger::enter_user();
+                                    Vec::with_capacity(64)
+                                };
+                                s.dedup_by(|x, y| {
+                                    let _u = ledger::enter_user();
+                                    seen.push((x.val(), y.val()));
+                                    x.val() == y.val()
+                                });
+                                seen
+                            },
+                            || {
+                                let mut seen = Vec::with_capacity(64);
+                                t.dedup_by(|x, y| {
+                                    seen.push((x.val(), y.val()));
+                                    x.val() == y.val()
+                                });
+                                seen
+                            },
+                        );
+                    }
+                }
             }
         }
         17 => {
@@ -549,6 +638,7 @@ pub fn vec_op<'b, P: Pair>(ctx: &mut Ctx, bump: &'b Bump, v: &mut VSlot<'b, P::A
 
 /// operations that consume the vector
 pub fn vec_consume<'b, P: Pair>(ctx: &mut Ctx, bump: &'b Bump, v: VSlot<'b, P::A, P::B>, code: u8, a: u8, b: u8, _c: u8) -> After<'b> {
+    let _c = _c;
     let VSlot { s, t } = v;
     let len = t.len();
     match code {
@@ -563,7 +653,9 @@ pub fn vec_consume<'b, P: Pair>(ctx: &mut Ctx, bump: &'b Bump, v: VSlot<'b, P::A
             } else {
                 ctx.st(V::IterPartial);
             }
-            let name = format!("into_iter on len {len}: take {front} front / {back} back, {}", if forget { "forget" } else { "drop" });
+            let nth = (b >> 2) as usize % 7; // 6 = do not call nth
+            let how = _c % 6;
+            let name = format!("into_iter on len {len}: nth({nth}) unless 6, take {front} front / {back} back, finish #{how}, {}", if forget { "forget" } else { "drop" });
             ctx.both(
                 &name,
                 move || {
@@ -572,6 +664,9 @@ pub fn vec_consume<'b, P: Pair>(ctx: &mut Ctx, bump: &'b Bump, v: VSlot<'b, P::A
                         let _u = ledger::enter_user();
                         Vec::with_capacity(12)
                     };
+                    if nth < 6 {
+                        got.push(it.nth(nth).map(|x| x.val()).unwrap_or(999));
+                    }
                     for _ in 0..front {
                         if let Some(x) = it.next() {
                             got.push(x.val());
@@ -586,12 +681,25 @@ pub fn vec_consume<'b, P: Pair>(ctx: &mut Ctx, bump: &'b Bump, v: VSlot<'b, P::A
                     got.extend(it.as_slice().iter().map(|x| x.val()));
                     if forget {
                         std::mem::forget(it);
+                    } else {
+                        // other ways an iterator is usually finished
+                        match how {
+                            1 => got.push(it.count() as u32),
+                            2 => got.push(it.last().map(|x| x.val()).unwrap_or(998)),
+                            3 => got.extend(it.skip(2).map(|x| x.val())),
+                            4 => got.extend(it.step_by(2).map(|x| x.val())),
+                            5 => got.extend(it.rev().take(2).map(|x| x.val())),
+                            _ => drop(it),
+                        }
                     }
                     got
                 },
                 move || {
                     let mut it = t.into_iter();
                     let mut got = Vec::with_capacity(12);
+                    if nth < 6 {
+                        got.push(it.nth(nth).map(|x| x.val()).unwrap_or(999));
+                    }
                     for _ in 0..front {
                         if let Some(x) = it.next() {
                             got.push(x.val());
@@ -606,6 +714,15 @@ pub fn vec_consume<'b, P: Pair>(ctx: &mut Ctx, bump: &'b Bump, v: VSlot<'b, P::A
                     got.extend(it.as_slice().iter().map(|x| x.val()));
                     if forget {
                         std::mem::forget(it);
+                    } else {
+                        match how {
+                            1 => got.push(it.count() as u32),
+                            2 => got.push(it.last().map(|x| x.val()).unwrap_or(998)),
+                            3 => got.extend(it.skip(2).map(|x| x.val())),
+                            4 => got.extend(it.step_by(2).map(|x| x.val())),
+                            5 => got.extend(it.rev().take(2).map(|x| x.val())),
+                            _ => drop(it),
+                        }
                     }
                     got
                 },
